@@ -38,6 +38,12 @@ def run(ctx, chk):
     v2(fb, chk)
     v3(fb, chk)
     n = lambda r: len([i for i in chk.instances if i[0] == r])
+    # the validity rules the handler relies on are decided exactly by C20/X2 for the types the backend server decodes
+    from vlint.report import Renamed as _Renamed
+    from spec import validity as _validity
+    from . import c20 as _c20
+    chk.rule("V4", "validators of the request bodies decoded by the backend server accept exactly the protocol-valid encodings (C20/X2)")
+    _c20.run_on(fb, _Renamed(chk, {"X2": "V4", "X1": "V4"}), _validity.VALID)
     chk.floor("V1", n("V1"), 38)
     chk.floor("V2", n("V2"), 150)
     chk.floor("V3", n("V3"), 6)
